@@ -310,6 +310,12 @@ func init() {
 				}
 				// crash during a request in the middle of the history (a record exists, a next input exists)
 				k := 1 + c.Rng.Intn(len(ec.inputs)-2)
+				if len(ls) == 1 {
+					// the second case is always the one whose consecutive records have the same length
+					ec = scenSameLen(c)
+					ec.mode = "pers"
+					k = 3 + c.Rng.Intn(3)
+				}
 				ls = append(ls, fmt.Sprintf("crash %d ## %s", k, ec.String()))
 			}
 			return ls
